@@ -245,6 +245,10 @@ func (g *gatedDHCPv4) ready() error {
 }
 
 func (g *gatedDHCPv4) Feed(in []byte) outcome {
+	if _, err := dhcpv4.FromBytes(in); err != nil { // refused by the library in front of the handler, whatever the placeholders stand for
+		gateCount(g.ev, g.name, g.state, gFraming)
+		return outcome{class: gFraming}
+	}
 	if err := g.ready(); err != nil {
 		g.ev.Note("listener-alive", "no-lease-by-well-formed-exchange", "the DHCPv4 handler no longer brings a client to state "+g.state+" by the legitimate exchange: "+err.Error(), in, "")
 		return outcome{class: "setup-failed"}
@@ -281,9 +285,9 @@ func gatedDHCPv4Entry() *entry {
 	name := "gated:dhcp.Server.handleDHCP"
 	per := func(thorough bool) int {
 		if thorough {
-			return 30000
+			return 20000
 		}
-		return 3500
+		return 2800
 	}
 	return &entry{
 		name: name, comp: "dhcp.Server.handleDHCP", states: gatedDHCPv4States, quick: 3 * per(false), thorough: 3 * per(true), chunk: 3500, cost: 25, // a fresh server (address pool) per chunk
@@ -573,6 +577,10 @@ func (g *gatedDHCPv6) ready() error {
 }
 
 func (g *gatedDHCPv6) Feed(in []byte) outcome {
+	if _, err := dhcpv6.ParseMessage(exact(in)); err != nil { // refused by the message parser in front of the handler (fed to it all the same, first pass entry dhcpv6.ParseMessage)
+		gateCount(g.ev, g.name, g.state, gFraming)
+		return outcome{class: gFraming}
+	}
 	if err := g.ready(); err != nil {
 		g.ev.Note("listener-alive", "no-binding-by-well-formed-exchange", "the DHCPv6 handler no longer brings a client to state "+g.state+" by the legitimate exchange: "+err.Error(), in, "")
 		return outcome{class: "setup-failed"}
@@ -610,12 +618,12 @@ func gatedDHCPv6Entry() *entry {
 	name := "gated:dhcpv6.Server.handleMessage"
 	per := func(thorough bool) int {
 		if thorough {
-			return 30000
+			return 20000
 		}
-		return 4000
+		return 3200
 	}
 	return &entry{
-		name: name, comp: "dhcpv6.Server.handleMessage", states: gatedDHCPv6States, quick: 2 * per(false), thorough: 2 * per(true), chunk: 1 << 20, cost: 20,
+		name: name, comp: "dhcpv6.Server.handleMessage", states: gatedDHCPv6States, quick: 2 * per(false), thorough: 2 * per(true), chunk: 4000, cost: 20,
 		quota:     func(_ string, thorough bool) int { return per(thorough) },
 		gateFloor: func(thorough bool) int { return per(thorough) / 2 },
 		open: func(state string, ev *env) (runner, error) {
@@ -799,8 +807,6 @@ func gatedCoAEntry() *entry {
 // ---------------------------------------------------------------------------------------------
 // HA standby with synced sessions: the message handler, and the SSE stream framing in front of it
 
-var gatedHAStates = []string{"standby-synced", "stream-attached"}
-
 func haSess(id string) map[string]any {
 	return map[string]any{"session_id": id, "subscriber_id": "sub-" + id, "mac": "02:00:00:00:00:01", "ip": "10.0.0.5", "ipv6": "2001:db8::5", "vlan": 100, "s_tag": 10, "c_tag": 20,
 		"qos_profile": "gold", "download_rate_bps": 100000000, "session_type": "ipoe", "username": "alice", "created_at": "2023-11-14T22:13:20Z", "last_activity": "2023-11-14T22:13:20Z", "state": "active", "walled_garden": false}
@@ -832,7 +838,20 @@ func haSessionVariants() []any {
 	for i := 0; i < 12; i++ {
 		many = append(many, map[string]any{"session_id": fmt.Sprintf("m-%d", i)})
 	}
+	id := func(s string) map[string]any { return map[string]any{"session_id": s} }
+	sparse := map[string]any{"session_id": "s-2", "created_at": nil, "mac": nil, "vlan": nil}
+	zero := haSess("s-3")
+	zero["created_at"], zero["last_activity"], zero["ip"], zero["mac"], zero["vlan"] = "0001-01-01T00:00:00Z", "9999-12-31T23:59:59Z", "", "not-a-mac", -2147483648
+	var dups []any
+	for i := 0; i < 40; i++ {
+		dups = append(dups, id("never-synced"))
+	}
 	return []any{
+		// well-typed lists (they pass the decoder): known / never-synced / empty / odd identifiers, nulls, repeats
+		[]any{id("s-1")}, []any{id("never-synced")}, []any{id("never-synced"), id("never-synced-2")}, []any{id("s-1"), id("never-synced")}, []any{id("never-synced"), id("s-1")},
+		[]any{id("")}, []any{id("\x00")}, []any{id(strings.Repeat("i", 1500))}, []any{id("s-1"), id("s-1"), id("s-1")}, []any{nil, nil}, []any{nil, id("s-2"), nil}, []any{map[string]any{}, map[string]any{}},
+		[]any{sparse}, []any{zero}, dups, []any{haSess("s-1"), haSess("s-2"), haSess("s-3"), haSess("never-synced")},
+		// ill-typed ones (the decoder must refuse them)
 		nil, []any{}, map[string]any{}, "x", 7, []any{nil}, []any{1}, []any{"s-1"}, []any{[]any{}}, []any{map[string]any{}},
 		[]any{haSess("s-1")}, []any{haSess("never-synced")}, []any{haSess("s-1"), haSess("s-1")}, []any{haSess("never-synced"), haSess("s-2")},
 		[]any{haSess("s-1"), haSess("s-2"), haSess("s-3")}, []any{map[string]any{"session_id": ""}}, []any{map[string]any{"session_id": 5}},
@@ -980,15 +999,23 @@ func (g *gatedHA) Next(i int, rng *rand.Rand) []byte {
 		return append([]byte(nil), g.sys[i]...)
 	}
 	s := g.sys[rng.IntN(len(g.sys))]
-	switch rng.IntN(4) {
-	case 0: // a message built afresh from the shapes
+	switch rng.IntN(5) {
+	case 0, 1, 2: // a message built from the shapes, then damaged as a JSON document (it stays well-formed JSON)
 		vs := haSessionVariants()
-		b := haJSON(haMsg(haTypes[rng.IntN(len(haTypes))], vs[rng.IntN(len(vs))], rng.IntN(8) == 0))
+		var doc any = haMsg(haTypes[rng.IntN(len(haTypes))], vs[rng.IntN(len(vs))], rng.IntN(8) == 0)
+		for r, rounds := 0, rng.IntN(4); r < rounds; r++ {
+			doc = jsonHostile(rng, doc, 0)
+		}
+		b := haJSON(doc)
+		if len(b) > maxInput-8 {
+			b = haJSON(haMsg("delete", vs[rng.IntN(len(vs))], false))
+		}
 		if g.state == "stream-attached" {
-			b = append([]byte("data: "), b...)
+			pre := []string{"data: ", "data: ", "data: ", "data:", "data:  ", "event: "}[rng.IntN(6)]
+			b = append([]byte(pre), b...)
 		}
 		return b
-	case 1:
+	case 3:
 		keep := 0
 		if g.state == "stream-attached" && rng.IntN(2) == 0 {
 			keep = 6
@@ -996,6 +1023,76 @@ func (g *gatedHA) Next(i int, rng *rand.Rand) []byte {
 		return mutate(rng, s, keep, g.sys[rng.IntN(len(g.sys))])
 	default:
 		return mutate(rng, s, 0, g.sys[rng.IntN(len(g.sys))])
+	}
+}
+
+// jsonHostile replaces, removes or multiplies one node of a JSON document.
+func jsonHostile(rng *rand.Rand, v any, depth int) any {
+	leaf := func() any {
+		return []any{nil, true, 0, -1, 1e40, 1.5, "", "s-1", "never-synced", strings.Repeat("A", 300), "2023-11-14T22:13:20Z", "0000-00-00T00:00:00Z", []any{}, map[string]any{}, []any{[]any{[]any{}}},
+			map[string]any{"session_id": "s-2"}, haSess("s-3"), haSess("never-synced")}[rng.IntN(18)]
+	}
+	if depth > 6 || rng.IntN(8) == 0 {
+		return leaf()
+	}
+	switch x := v.(type) {
+	case string: // mostly stay a string: the document keeps passing the decoder
+		return []any{"", "s-1", "s-2", "never-synced", "\x00", strings.Repeat("A", 300), "delete", "add", "full", "update", "0001-01-01T00:00:00Z", "2023-11-14T22:13:20+14:00", nil}[rng.IntN(13)]
+	case int, float64:
+		return []any{0, 1, 4095, 65535, 65536, 2147483647, -1, nil}[rng.IntN(8)]
+	case bool:
+		return []any{true, false, nil}[rng.IntN(3)]
+	case map[string]any:
+		if len(x) == 0 {
+			return map[string]any{"session_id": leaf(), "type": leaf()}
+		}
+		keys := make([]string, 0, len(x))
+		for k := range x {
+			keys = append(keys, k)
+		}
+		sortStrings(keys)
+		k := keys[rng.IntN(len(keys))]
+		out := map[string]any{}
+		for kk, vv := range x {
+			out[kk] = vv
+		}
+		switch rng.IntN(5) {
+		case 0:
+			delete(out, k)
+		case 1:
+			out[k+"x"] = out[k]
+		default:
+			out[k] = jsonHostile(rng, x[k], depth+1)
+		}
+		return out
+	case []any:
+		if len(x) == 0 {
+			return []any{leaf()}
+		}
+		i := rng.IntN(len(x))
+		out := append([]any(nil), x...)
+		switch rng.IntN(5) {
+		case 0:
+			return append(out[:i:i], out[i+1:]...)
+		case 1: // the same element many times
+			for k := 0; k < 1+rng.IntN(6); k++ {
+				out = append(out, x[i])
+			}
+			return out
+		default:
+			out[i] = jsonHostile(rng, x[i], depth+1)
+			return out
+		}
+	default:
+		return leaf()
+	}
+}
+
+func sortStrings(s []string) {
+	for i := 1; i < len(s); i++ {
+		for j := i; j > 0 && s[j] < s[j-1]; j-- {
+			s[j], s[j-1] = s[j-1], s[j]
+		}
 	}
 }
 
@@ -1062,8 +1159,11 @@ func (g *gatedHA) Feed(in []byte) outcome {
 			return outcome{class: "stream-ended"}
 		default:
 		}
-		if spin == 2000 || spin == 20000 {
-			g.lines <- append(append([]byte("\ndata: "), probeAdd...), '\n')
+		if spin%2000 == 1999 { // the probe did not arrive (swallowed by the input, or written to a stream that was ending): again
+			select {
+			case g.lines <- append(append([]byte("\ndata: "), probeAdd...), '\n'):
+			default:
+			}
 		}
 		if spin < 200 {
 			runtime.Gosched()
@@ -1078,6 +1178,31 @@ func (g *gatedHA) Feed(in []byte) outcome {
 	}
 	gateCount(g.ev, g.name, g.state, class)
 	g.lines <- append(append([]byte("data: "), probeDel...), '\n')
+	for spin := 0; ; spin++ { // the delete has been applied too: the next case starts from a quiet stream
+		if _, ok := g.s.GetReceivedSession(probe); !ok {
+			break
+		}
+		select {
+		case p := <-g.crashed:
+			g.dead = p
+			return outcome{pan: p}
+		case err := <-g.ended:
+			g.ended <- err
+			return outcome{class: "stream-ended"}
+		default:
+		}
+		if spin%2000 == 1999 {
+			select {
+			case g.lines <- append(append([]byte("\ndata: "), probeDel...), '\n'):
+			default:
+			}
+		}
+		if spin < 200 {
+			runtime.Gosched()
+		} else {
+			time.Sleep(50 * time.Microsecond)
+		}
+	}
 	o := outcome{class: class, nontriv: class == gPassed}
 	o.dist = map[string]string{"gated_ha_effect": fmt.Sprintf("%s/%s/messages+%d", g.state, class, min(int(after-before), 4))}
 	return o
@@ -1091,8 +1216,7 @@ func (g *gatedHA) Close() {
 	}
 }
 
-func gatedHAEntry() *entry {
-	name := "gated:ha.HASyncer"
+func gatedHAEntry(name, comp, only string) *entry {
 	per := func(state string, thorough bool) int {
 		n := len(haSys()) + 1500
 		if state == "stream-attached" {
@@ -1104,9 +1228,9 @@ func gatedHAEntry() *entry {
 		return n
 	}
 	return &entry{
-		name: name, comp: "ha.HASyncer.handleSSEData", states: gatedHAStates, quick: per("standby-synced", false) + per("stream-attached", false), thorough: per("standby-synced", true) + per("stream-attached", true), chunk: 1 << 20, cost: 15,
+		name: name, comp: comp, states: []string{only}, totalFn: func(t bool) int { return per(only, t) }, chunk: 2000, cost: 15,
 		quota:     per,
-		gateFloor: func(thorough bool) int { return per("standby-synced", thorough) / 4 },
+		gateFloor: func(thorough bool) int { return per(only, thorough) / 8 },
 		open: func(state string, ev *env) (runner, error) {
 			g := &gatedHA{ev: ev, name: name, state: state}
 			if state == "standby-synced" {
